@@ -172,12 +172,12 @@ func init() {
 	})
 }
 
-var c20Pool = []string{"$a", "$a = 5", "$a = x + 1", "$a = 7, $a", "x", "this.x", "k", "[x, $a, k]", "$b = $a", "[$a, $b]", "this.$a", "$a = $a"}
+var c20Pool = []string{"$a + 1", "[$a + 1, $a]", "[$a + $a, $a, $b]", "$a", "$a = 5", "$a = x + 1", "$a = 7, $a", "x", "this.x", "k", "[x, $a, k]", "$b = $a", "[$a, $b]", "this.$a", "$a = $a"}
 
 var c20Alphabet = []runnerOp{
 	{Op: "setthis", Map: "A"}, {Op: "setthis", Map: "B"}, {Op: "setthis", Map: ""},
 	{Op: "setvalue", Key: "x", Val: 50}, {Op: "setvalue", Key: "$a", Val: 60},
-	{Op: "resolve", F: "$a = x + 1"}, {Op: "resolve", F: "[x, $a, k]"}, {Op: "resolve", F: "$a = 5"}, {Op: "resolve", F: "this.x"},
+	{Op: "resolve", F: "$a = x + 1"}, {Op: "resolve", F: "[x, $a, k]"}, {Op: "resolve", F: "$a = 5"}, {Op: "resolve", F: "this.x"}, {Op: "resolve", F: "[$a + 1, $a]"},
 	{Op: "set", Key: "x", Val: 99}, {Op: "get", Key: "x"}, {Op: "get", Key: "$a"}, {Op: "set", Key: "$a", Val: 98},
 }
 
